@@ -1,189 +1,728 @@
 import GardenVerif.Lemmas.Parse
 /-!
-C01 (parser half) — forward progress / no panic of the parser model M2 (repaired tree, `pn = false`).
-
-PARTIAL. Proved here, for EVERY token list and every state (no bound):
-* `parseSymbol_near` — `parse_symbol` (code unchanged) never panics on a non-empty token list and moves
-  the index back by at most one; `parseSymbol_good` — away from the end of the file it never moves
-  back. (At the end of the file it un-pops a token it never popped: the root cause of the panics at
-  parser.rs:1995 / 2183 / 2812 on `let x: (A,` / `fun f(a,` / `let (a` and of the non-termination on
-  `let x: A<B,` / `fun f<T,` / `enum E { A,` / `Foo{ a: 1,`; repaired in the LOOPS by
-  parser-fix-eof-progress.diff, which breaks out of an iteration that made no progress.)
-* `goodP_checkRequiredToken`, `goodP_requireToken` — `check_required_token` / `require_token` (with
-  their `expect("TODO: handle empty file properly")`) never panic on a non-empty token list and never
-  move backwards; `goodP_pop/peek/peekIs/diag/getIdx`; the composition rules `good_bind`, `goodP_bind`
-  of the invariant `Good` = "not a panic ∧ idx' ≥ idx ∧ idx' ≤ |toks|";
-* evaluated witnesses: the pinned model panics at parser.rs:328 on `(1, })`, at parser.rs:2812 on
-  `let (a`, 2183 on `fun f(a,`, 1995 on `let x: (A,`, the repaired model returns
-  diagnostics on all of them and on `fun f<T,` (on which the pinned parser and model never terminate:
-  driver op `parse_tokens_pinned` answers `ERR fuel`, the real binary hangs allocating).
-
-NOT proved (left out, no `sorry`): the full statement
-  `parse_no_panic : ∀ fuel toks, toks ≠ [] → parseItems fuel toks ≠ panic`
-and its intended route, the mutual invariant `GoodP` for every parse function by induction on fuel
-(type-hint block, parameter / destructuring loops — their former assertions 1995 / 2183 / 2812 are now
-`break`s —; the 28
-functions of the expression block with 328, 404, 1082, 1361, 2334; items loop 3067). The progress
-assertions need, besides `Good`, the strict facts "a loop iteration that reaches the assertion
-consumed a token", which follow from `Good` of the callee plus the explicit `pop` before each
-assertion (tuple-hint, parameter, destructuring, trailing loops) or from the
-invalid-or-placeholder break (`parse_expression` returns `Invalid`/placeholder whenever it consumes
-nothing: block, comma-separated, dict, tuple loops, items loop). Until then these sites are covered by
-the correspondence run (model PANIC ⇔ implementation PANIC at the same line, harness/ast_dump.py
-`same_outcome`) and the token-sequence fuzzing of the integrator.
+C01 (parser half) — the parser model M2 (`pn = false`: /repo HEAD with the left-assoc, tuple-progress and
+eof-progress repairs) never panics. See the end of the file for the main theorem and its coverage.
 -/
 
 namespace C01Parse
 open Parse ParseLemmas
 
-/-- Outcome is not a panic, and on success the index did not move backwards and stays in range. -/
-def Good {α} (toks : Toks) (s : St) : Res α → Prop
-  | .ok _ s' => s.idx ≤ s'.idx ∧ s'.idx ≤ toks.length
+/-- Weakest precondition: `m` run from `s` does not panic and, if it returns, `Q` holds. -/
+def wp {α} (m : P α) (Q : α → St → Prop) (s : St) : Prop :=
+  match m s with
+  | .ok a s' => Q a s'
   | .panic _ => False
   | .outOfFuel => True
 
-def GoodP {α} (toks : Toks) (m : P α) : Prop := ∀ s, s.idx ≤ toks.length → Good toks s (m s)
+theorem wp_bind {α β} (m : P α) (f : α → P β) (Q : β → St → Prop) (s : St) :
+    wp (m >>= f) Q s ↔ wp m (fun a s' => wp (f a) Q s') s := by
+  simp only [wp, bind_apply, P.bind]
+  cases m s <;> simp
 
-theorem good_bind {α β} {toks : Toks} {m : P α} {f : α → P β} {s : St}
-    (hm : Good toks s (m s))
-    (hf : ∀ a s', m s = .ok a s' → s.idx ≤ s'.idx → s'.idx ≤ toks.length → Good toks s' (f a s')) :
-    Good toks s ((m >>= f) s) := by
-  rw [bind_apply]
-  unfold P.bind
-  cases h : m s with
-  | ok a s' =>
-    rw [h] at hm
-    have := hf a s' h hm.1 hm.2
-    simp only
-    cases h2 : f a s' with
-    | ok b s'' => rw [h2] at this; exact ⟨Nat.le_trans hm.1 this.1, this.2⟩
-    | panic p => rw [h2] at this; exact this
-    | outOfFuel => trivial
-  | panic p => rw [h] at hm; exact hm
+theorem wp_pure {α} (a : α) (Q : α → St → Prop) (s : St) : wp (pure a : P α) Q s ↔ Q a s := by
+  simp [wp, pure_apply]
+
+theorem wp_outOfFuel {α} (Q : α → St → Prop) (s : St) : wp (outOfFuel : P α) Q s ↔ True := by
+  simp [wp, outOfFuel]
+
+theorem wp_panic {α} (x : String) (Q : α → St → Prop) (s : St) : wp (Parse.panic x : P α) Q s ↔ False := by
+  simp [wp, Parse.panic]
+
+theorem wp_getIdx (Q : Nat → St → Prop) (s : St) : wp getIdx Q s ↔ Q s.idx s := by simp [wp, getIdx]
+theorem wp_getDiags (Q : List DiagKind → St → Prop) (s : St) : wp getDiags Q s ↔ Q s.diags s := by simp [wp, getDiags]
+theorem wp_setDiags (d : List DiagKind) (Q : Unit → St → Prop) (s : St) :
+    wp (setDiags d) Q s ↔ Q () { s with diags := d } := by simp [wp, setDiags]
+theorem wp_diag (k : DiagKind) (Q : Unit → St → Prop) (s : St) :
+    wp (diag k) Q s ↔ Q () { s with diags := s.diags ++ [k] } := by simp [wp, diag]
+theorem wp_peekAt (toks : Toks) (k : Nat) (Q : Option TokI → St → Prop) (s : St) :
+    wp (peekAt toks k) Q s ↔ Q ((toks[s.idx + k]?).map fun t => ⟨t, s.idx + k⟩) s := by simp [wp, peekAt]
+theorem wp_peek (toks : Toks) (Q : Option TokI → St → Prop) (s : St) :
+    wp (peek toks) Q s ↔ Q ((toks[s.idx]?).map fun t => ⟨t, s.idx⟩) s := by simp [wp, peek, peekAt]
+theorem wp_peekIs (toks : Toks) (x : String) (Q : Bool → St → Prop) (s : St) :
+    wp (peekIs toks x) Q s ↔ Q (match toks[s.idx]? with | some t => t.text == x | none => false) s := by
+  simp only [wp, peekIs]; cases toks[s.idx]? <;> exact Iff.rfl
+theorem wp_pop (toks : Toks) (Q : Option TokI → St → Prop) (s : St) :
+    wp (pop toks) Q s ↔ (match toks[s.idx]? with
+      | some t => Q (some ⟨t, s.idx⟩) { s with idx := s.idx + 1 }
+      | none => Q none s) := by
+  simp only [wp, pop]; cases toks[s.idx]? <;> simp
+theorem wp_prev (toks : Toks) (Q : Option TokI → St → Prop) (s : St) :
+    wp (prev toks) Q s ↔ Q (if s.idx = 0 then none else (toks[s.idx - 1]?).map fun t => ⟨t, s.idx - 1⟩) s := by
+  simp [wp, prev]
+theorem wp_unpop (Q : Unit → St → Prop) (s : St) :
+    wp unpop Q s ↔ (0 < s.idx ∧ Q () { s with idx := s.idx - 1 }) := by
+  simp only [wp, unpop]
+  by_cases h : 0 < s.idx <;> simp [h]
+theorem wp_ite {α} (c : Prop) [Decidable c] (a b : P α) (Q : α → St → Prop) (s : St) :
+    wp (if c then a else b) Q s ↔ (if c then wp a Q s else wp b Q s) := by
+  split <;> rfl
+theorem wp_mono {α} {m : P α} {Q Q' : α → St → Prop} {s : St} (h : wp m Q s) (hq : ∀ a s', Q a s' → Q' a s') :
+    wp m Q' s := by
+  unfold wp at *
+  cases hm : m s with
+  | ok a s' => rw [hm] at h; exact hq a s' h
+  | panic p => rw [hm] at h; exact h
   | outOfFuel => trivial
 
-theorem good_pure {α} {toks : Toks} (a : α) (s : St) (h : s.idx ≤ toks.length) : Good toks s ((pure a : P α) s) := by
-  simp [pure_apply, Good, h]
+/-- `1` iff the last token is a symbol-like token (then `parse_symbol` at the end of the file does not
+un-pop, for lexer-like tokens). -/
+def lastSym (toks : Toks) : Nat :=
+  match toks.getLast? with
+  | some t => if isSymbolTok t.text then 1 else 0
+  | none => 0
 
-theorem goodP_bind {α β} {toks : Toks} {m : P α} {f : α → P β} (hm : GoodP toks m) (hf : ∀ a, GoodP toks (f a)) :
-    GoodP toks (m >>= f) :=
-  fun s hs => good_bind (hm s hs) (fun a s' _ _ h2 => hf a s' h2)
+/-- Movement allowed to a parse function: forwards, or — only when started at the end of the file
+and the last token is not symbol-like — back onto the last token. -/
+def Mv (toks : Toks) (i j : Nat) : Prop :=
+  j ≤ toks.length ∧ (i ≤ j ∨ (i = toks.length ∧ j + 1 = toks.length ∧ lastSym toks = 0))
 
-theorem goodP_pure {α} {toks : Toks} (a : α) : GoodP toks (pure a : P α) := fun s hs => good_pure a s hs
+/-- What the real lexer guarantees and the parser relies on: a float-looking token is a whole float
+(else `parse::<f64>().unwrap()` panics); a symbol-like token sits on one line. -/
+structure LexLike (toks : Toks) : Prop where
+  floats : ∀ t ∈ toks, isFloatTok t.text = true → floatWhole (t.text.toList.filter (· != '_')) = true
+  symLines : ∀ t ∈ toks, isSymbolTok t.text = true → t.endLine = t.line
 
-theorem get_lt {toks : Toks} {i : Nat} {t : Tok} (h : toks[i]? = some t) : i < toks.length := by
-  have := List.getElem?_eq_some_iff.mp h
-  exact this.1
+theorem mem_of_get {toks : Toks} {i : Nat} {t : Tok} (h : toks[i]? = some t) : t ∈ toks :=
+  List.mem_of_getElem? h
 
-theorem goodP_peek (toks : Toks) : GoodP toks (peek toks) := by
-  intro s hs; simp [peek, peekAt, Good, hs]
-theorem goodP_peekIs (toks : Toks) (x : String) : GoodP toks (peekIs toks x) := by
-  intro s hs; simp [peekIs, Good, hs]
-theorem goodP_diag (toks : Toks) (k : DiagKind) : GoodP toks (diag k) := by
-  intro s hs; simp [diag, Good, hs]
-theorem goodP_getIdx (toks : Toks) : GoodP toks getIdx := by
-  intro s hs; simp [getIdx, Good, hs]
-theorem goodP_pop (toks : Toks) : GoodP toks (pop toks) := by
-  intro s hs
-  unfold pop
+theorem get_lt {toks : Toks} {i : Nat} {t : Tok} (h : toks[i]? = some t) : i < toks.length :=
+  (List.getElem?_eq_some_iff.mp h).1
+
+theorem get_none {toks : Toks} {i : Nat} (h : toks[i]? = none) : toks.length ≤ i :=
+  List.getElem?_eq_none_iff.mp h
+
+theorem lastSym_of_last {toks : Toks} {t : Tok} (h : toks[toks.length - 1]? = some t) (hs : isSymbolTok t.text = true) :
+    lastSym toks = 1 := by
+  have : toks.getLast? = some t := by rw [List.getLast?_eq_getElem?]; exact h
+  simp [lastSym, this, hs]
+
+theorem lastSym_zero {toks : Toks} {t : Tok} (h : toks[toks.length - 1]? = some t) (hs : isSymbolTok t.text = false) :
+    lastSym toks = 0 := by
+  have : toks.getLast? = some t := by rw [List.getLast?_eq_getElem?]; exact h
+  simp [lastSym, this, hs]
+
+/-- Does token `i` exist and have text `x`? -/
+def tokIs (toks : Toks) (i : Nat) (x : String) : Bool :=
+  match toks[i]? with | some t => t.text == x | none => false
+
+section level0
+variable (toks : Toks) (hne : toks ≠ [])
+include hne
+
+theorem len_pos : 0 < toks.length := List.length_pos_iff.mpr hne
+
+/-- `require_a_token`: pops if there is a token; at the end of the file hands back the previous one. -/
+theorem spec_requireAToken (s : St) (hs : s.idx ≤ toks.length) :
+    wp (requireAToken toks) (fun t s' =>
+      (∃ t0, toks[s.idx]? = some t0 ∧ t = ⟨t0, s.idx⟩ ∧ s'.idx = s.idx + 1) ∨
+      (toks[s.idx]? = none ∧ s'.idx = s.idx ∧ 0 < s.idx ∧ t.i = s.idx - 1 ∧ toks[s.idx - 1]? = some t.tok)) s := by
+  unfold requireAToken
+  simp only [wp_bind, wp_pop]
   cases h : toks[s.idx]? with
-  | none => simp [Good, hs]
-  | some t => have := get_lt h; simp [Good]; omega
-
-/-- `check_required_token` / `require_token` never panic on a non-empty token list, never move back. -/
-theorem goodP_checkRequiredToken (toks : Toks) (hne : toks ≠ []) (x : String) : GoodP toks (checkRequiredToken toks x) := by
-  intro s hs
-  unfold checkRequiredToken
-  simp only [bind_apply, P.bind, prev, pop]
-  cases h : toks[s.idx]? with
-  | some t =>
-    have := get_lt h
-    by_cases hx : t.text = x
-    · simp [TokI.text, hx, pure_apply, Good]; omega
-    · simp [TokI.text, hx, pure_apply, Good, diag, unpop, bind_apply, P.bind]; omega
+  | some t0 => simp [wp_pure]
   | none =>
-    by_cases h0 : s.idx = 0
-    · have : toks[0]? = none := by rw [h0] at h; exact h
-      cases toks with
-      | nil => exact absurd rfl hne
-      | cons a b => simp at this
-    · have hlt : s.idx - 1 < toks.length := by omega
-      have hp : toks[s.idx - 1]? = some toks[s.idx - 1] := List.getElem?_eq_getElem hlt
-      simp [h0, hp, diag, pure_apply, Good, bind_apply, P.bind, hs]
+    have hl := get_none h
+    have hp := len_pos toks hne
+    have h0 : s.idx ≠ 0 := by omega
+    have hlt : s.idx - 1 < toks.length := by omega
+    have hpv : toks[s.idx - 1]? = some toks[s.idx - 1] := List.getElem?_eq_getElem hlt
+    simp only [wp_prev, wp_bind, wp_diag, h0, ↓reduceIte, hpv, Option.map_some, wp_pure]
+    simp; omega
 
-theorem goodP_requireToken (toks : Toks) (hne : toks ≠ []) (x : String) : GoodP toks (requireToken toks x) := by
-  unfold requireToken
-  exact goodP_bind (goodP_checkRequiredToken toks hne x) (fun a => goodP_pure _)
-
-/-- Like `Good`, but the index may have moved back by one (what `parse_symbol` does at the end of the
-file: `require_a_token` hands back the previous token and the not-a-symbol / keyword-on-another-line
-branches un-pop it although it was never popped). -/
-def Near {α} (toks : Toks) (s : St) : Res α → Prop
-  | .ok _ s' => s.idx ≤ s'.idx + 1 ∧ s'.idx ≤ toks.length
-  | .panic _ => False
-  | .outOfFuel => True
-
-/-- `parse_symbol` (unchanged code) never panics on a non-empty token list; it moves back by at most
-one token. -/
-theorem parseSymbol_near (toks : Toks) (hne : toks ≠ []) (pn : Bool) (s : St) (hs : s.idx ≤ toks.length) :
-    Near toks s (parseSymbol toks pn s) := by
-  unfold parseSymbol
+/-- `check_required_token`. -/
+theorem spec_checkRequiredToken (x : String) (s : St) (hs : s.idx ≤ toks.length) :
+    wp (checkRequiredToken toks x) (fun r s' =>
+      r.1 = tokIs toks s.idx x ∧ s'.idx ≤ toks.length ∧
+      ((tokIs toks s.idx x = true ∧ s'.idx = s.idx + 1) ∨ (tokIs toks s.idx x = false ∧ s'.idx = s.idx))) s := by
+  unfold checkRequiredToken
+  simp only [wp_bind, wp_prev, wp_pop, tokIs]
   cases h : toks[s.idx]? with
-  | some t =>
-    have hlt : s.idx < toks.length := get_lt h
-    simp only [bind_apply, P.bind, prev, requireAToken, pop, h, pure_apply]
-    cases h1 : isSymbolTok t.text with
-    | false => simp [TokI.text, h1, diag, unpop, pure_apply, Near, bind_apply, P.bind]; omega
+  | some t0 =>
+    have := get_lt h
+    by_cases hx : t0.text = x
+    · simp [TokI.text, hx, wp_pure]; omega
+    · simp [TokI.text, hx, wp_pure, wp_bind, wp_diag, wp_unpop]; omega
+  | none =>
+    have hl := get_none h
+    have hp := len_pos toks hne
+    have h0 : s.idx ≠ 0 := by omega
+    have hlt : s.idx - 1 < toks.length := by omega
+    have hpv : toks[s.idx - 1]? = some toks[s.idx - 1] := List.getElem?_eq_getElem hlt
+    simp [wp_bind, wp_diag, h0, hpv, wp_pure, hs]
+
+theorem spec_requireToken (x : String) (s : St) (hs : s.idx ≤ toks.length) :
+    wp (requireToken toks x) (fun _ s' => s'.idx ≤ toks.length ∧
+      ((tokIs toks s.idx x = true ∧ s'.idx = s.idx + 1) ∨ (tokIs toks s.idx x = false ∧ s'.idx = s.idx))) s := by
+  unfold requireToken
+  rw [wp_bind]
+  refine wp_mono (spec_checkRequiredToken toks hne x s hs) ?_
+  intro r s' h
+  simp only [wp_pure]
+  exact h.2
+
+theorem spec_requiredTokenOk (x : String) (s : St) (hs : s.idx ≤ toks.length) :
+    wp (requiredTokenOk toks x) (fun _ s' => s'.idx ≤ toks.length ∧
+      ((tokIs toks s.idx x = true ∧ s'.idx = s.idx + 1) ∨ (tokIs toks s.idx x = false ∧ s'.idx = s.idx))) s := by
+  unfold requiredTokenOk
+  rw [wp_bind]
+  refine wp_mono (spec_checkRequiredToken toks hne x s hs) ?_
+  intro r s' h
+  simp only [wp_pure]
+  exact h.2
+
+/-- `parse_symbol` (code unchanged): never panics; away from the end of the file it moves 0 or 1
+forwards and a non-placeholder name means it consumed the token; at the end of the file it may move
+back onto the last token, only if that token is not symbol-like. -/
+theorem spec_parseSymbol (hl : LexLike toks) (pn : Bool) (s : St) (hs : s.idx ≤ toks.length) :
+    wp (parseSymbol toks pn) (fun r s' => Mv toks s.idx s'.idx ∧
+      (s.idx < toks.length → s.idx ≤ s'.idx ∧ s'.idx ≤ s.idx + 1 ∧
+        (isPlaceholderName r.name = false → s'.idx = s.idx + 1))) s := by
+  unfold parseSymbol
+  rw [wp_bind, wp_prev, wp_bind]
+  refine wp_mono (spec_requireAToken toks hne s hs) ?_
+  intro t s1 h1
+  obtain ⟨i1, d1⟩ := s1
+  simp only at h1
+  rcases h1 with ⟨t0, ht0, rfl, hi⟩ | ⟨hnone, hi, hpos, hti, hprev⟩
+  · -- a token was popped
+    have hlt := get_lt ht0
+    subst hi
+    cases h1 : isSymbolTok t0.text with
+    | false =>
+      simp only [TokI.text, h1, Bool.not_false, ↓reduceIte, wp_bind, wp_diag, wp_unpop, wp_pure, Mv]
+      simp [isPlaceholderName]; omega
     | true =>
-      cases h2 : keywords.contains t.text with
+      cases h2 : keywords.contains t0.text with
       | false =>
-        have h3 : t.text ∉ keywords := by simpa using h2
-        simp [TokI.text, h1, h3, pure_apply, Near]; omega
+        simp only [TokI.text, h1, h2, Bool.not_true, Bool.false_eq_true, ↓reduceIte, wp_pure, Mv]
+        simp; omega
       | true =>
         simp only [TokI.text, h1, h2, Bool.not_true, Bool.false_eq_true, ↓reduceIte]
-        split
-        · split <;> simp [diag, unpop, pure_apply, Near, bind_apply, P.bind] <;> omega
-        · simp [diag, unpop, pure_apply, Near, bind_apply, P.bind]; omega
-  | none =>
-    by_cases h0 : s.idx = 0
-    · have : toks[0]? = none := by rw [h0] at h; exact h
-      cases toks with
-      | nil => exact absurd rfl hne
-      | cons a b => simp at this
-    · have hlt : s.idx - 1 < toks.length := by omega
-      have hp : toks[s.idx - 1]? = some toks[s.idx - 1] := List.getElem?_eq_getElem hlt
-      have hpos : 0 < s.idx := by omega
-      simp only [bind_apply, P.bind, prev, requireAToken, pop, h, h0, ↓reduceIte, hp, Option.map_some, diag,
-        pure_apply]
-      cases h1 : isSymbolTok (toks[s.idx - 1]).text with
-      | false => simp [TokI.text, h1, diag, unpop, pure_apply, Near, bind_apply, P.bind, hpos]; omega
-      | true =>
-        cases h2 : keywords.contains (toks[s.idx - 1]).text with
-        | false =>
-          have h3 : (toks[s.idx - 1]).text ∉ keywords := by simpa using h2
-          simp [TokI.text, h1, h3, pure_apply, Near]; omega
-        | true =>
-          simp only [TokI.text, h1, h2, Bool.not_true, Bool.false_eq_true, ↓reduceIte]
-          split <;> simp [diag, unpop, pure_apply, Near, bind_apply, P.bind, hpos] <;> omega
-
-/-- Away from the end of the file `parse_symbol` never moves back. -/
-theorem parseSymbol_good (toks : Toks) (pn : Bool) (s : St) (t : Tok) (h : toks[s.idx]? = some t) :
-    Good toks s (parseSymbol toks pn s) := by
-  unfold parseSymbol
-  have hlt : s.idx < toks.length := get_lt h
-  simp only [bind_apply, P.bind, prev, requireAToken, pop, h, pure_apply]
-  cases h1 : isSymbolTok t.text with
-  | false => simp [TokI.text, h1, diag, unpop, pure_apply, Good, bind_apply, P.bind]; omega
-  | true =>
-    cases h2 : keywords.contains t.text with
+        rw [wp_ite]
+        split <;> simp [wp_bind, wp_diag, wp_unpop, wp_pure, Mv, isPlaceholderName]
+        all_goals (first | omega | (split <;> omega))
+  · -- end of the file: `t` is the previous token
+    subst hi
+    have hge := get_none hnone
+    have hlen : s.idx = toks.length := by omega
+    have hprev' : toks[toks.length - 1]? = some t.tok := by rw [← hlen]; exact hprev
+    have h0 : s.idx ≠ 0 := by omega
+    cases h1 : isSymbolTok t.tok.text with
     | false =>
-      have h3 : t.text ∉ keywords := by simpa using h2
-      simp [TokI.text, h1, h3, pure_apply, Good]; omega
+      have hz := lastSym_zero hprev' h1
+      simp only [TokI.text, h1, Bool.not_false, ↓reduceIte, wp_bind, wp_diag, wp_unpop, wp_pure, Mv]
+      simp; omega
     | true =>
-      simp only [TokI.text, h1, h2, Bool.not_true, Bool.false_eq_true, ↓reduceIte]
+      cases h2 : keywords.contains t.tok.text with
+      | false =>
+        simp only [TokI.text, h1, h2, Bool.not_true, Bool.false_eq_true, ↓reduceIte, wp_pure, Mv]
+        simp; omega
+      | true =>
+        have hline := hl.symLines t.tok (mem_of_get hprev) h1
+        simp only [TokI.text, h1, h2, Bool.not_true, Bool.false_eq_true, ↓reduceIte, h0, hprev, Option.map_some,
+          hline, beq_self_eq_true, wp_bind, wp_diag, wp_pure, Mv]
+        simp; omega
+
+theorem spec_dupDiags (xs seen : List String) (s : St) :
+    wp (dupDiags xs seen) (fun _ s' => s'.idx = s.idx) s := by
+  induction xs generalizing seen s with
+  | nil => simp [dupDiags, wp_pure]
+  | cons x xs ih =>
+    unfold dupDiags
+    split
+    · exact ih seen s
+    · split
+      · rw [wp_bind, wp_diag]; exact ih seen _
+      · exact ih _ s
+
+theorem spec_diagN (n : Nat) (k : DiagKind) (s : St) : wp (diagN n k) (fun _ s' => s'.idx = s.idx) s := by
+  induction n generalizing s with
+  | zero => simp [diagN, wp_pure]
+  | succ n ih => unfold diagN; rw [wp_bind, wp_diag]; exact ih _
+
+theorem spec_closePos (term : String) (s : St) (hs : s.idx ≤ toks.length) :
+    wp (closePos toks term) (fun _ s' => s.idx ≤ s'.idx ∧ s'.idx ≤ s.idx + 1 ∧ s'.idx ≤ toks.length) s := by
+  unfold closePos
+  rw [wp_bind, wp_peek]
+  cases h : toks[s.idx]? with
+  | none =>
+    simp only [Option.map_none, wp_bind, wp_prev]
+    split <;> simp [wp_pure, hs]
+  | some t =>
+    have := get_lt h
+    simp only [Option.map_some]
+    rw [wp_ite]
+    split
+    · simp [wp_bind, wp_pop, h, wp_pure]; omega
+    · simp only [wp_bind, wp_prev]
+      split <;> simp [wp_pure, hs]
+
+theorem spec_skipToCloseBrace (s : St) (hs : s.idx ≤ toks.length) :
+    wp (skipToCloseBrace toks) (fun _ s' => s.idx ≤ s'.idx ∧ s'.idx ≤ toks.length ∧
+      (tokIs toks s.idx "}" = false → s.idx < toks.length → s.idx < s'.idx)) s := by
+  simp only [wp, skipToCloseBrace]
+  have h1 : ((toks.drop s.idx).takeWhile (fun t => t.text != "}")).length ≤ (toks.drop s.idx).length :=
+    (List.takeWhile_sublist _).length_le
+  have h2 : (toks.drop s.idx).length = toks.length - s.idx := by simp
+  refine ⟨by omega, by omega, ?_⟩
+  intro hne' hlt
+  have hget : toks[s.idx]? = some toks[s.idx] := List.getElem?_eq_getElem hlt
+  have hd : toks.drop s.idx = toks[s.idx] :: toks.drop (s.idx + 1) := by
+    exact List.drop_eq_getElem_cons hlt
+  simp only [tokIs, hget] at hne'
+  have : (toks[s.idx].text != "}") = true := by simp [bne, hne']
+  rw [hd, List.takeWhile_cons, if_pos this]
+  simp
+
+end level0
+
+
+/-! ### Type hints, parameters, destructuring, patterns -/
+
+macro "wpsimp" : tactic =>
+  `(tactic| simp only [wp_bind, wp_pure, wp_outOfFuel, wp_panic, wp_getIdx, wp_diag, wp_peek, wp_peekAt, wp_peekIs,
+      wp_pop, wp_prev, wp_unpop, wp_ite, wp_getDiags, wp_setDiags, Nat.add_zero, Option.map_some, Option.map_none,
+      Option.isNone_some, Option.isNone_none, Bool.not_false, Bool.not_true, Bool.true_and, Bool.false_and,
+      Bool.and_true, Bool.and_false, Bool.false_eq_true, ↓reduceIte])
+
+theorem wp_peekIs' (toks : Toks) (x : String) (Q : Bool → St → Prop) (s : St) :
+    wp (peekIs toks x) Q s ↔ Q (tokIs toks s.idx x) s := by
+  rw [wp_peekIs]; rfl
+
+macro "wpsimp'" : tactic =>
+  `(tactic| simp only [wp_bind, wp_pure, wp_outOfFuel, wp_panic, wp_getIdx, wp_diag, wp_peek, wp_peekAt, wp_peekIs',
+      wp_pop, wp_prev, wp_unpop, wp_ite, wp_getDiags, wp_setDiags, Nat.add_zero, Option.map_some, Option.map_none,
+      Option.isNone_some, Option.isNone_none, Bool.not_false, Bool.not_true, Bool.true_and, Bool.false_and,
+      Bool.and_true, Bool.and_false, Bool.false_eq_true, ↓reduceIte])
+
+macro "tk" h:ident : tactic =>
+  `(tactic| (try simp only [$h:ident, Bool.false_eq_true, ↓reduceIte, Option.map_some, Option.map_none]))
+
+theorem Mv.refl {toks : Toks} {i : Nat} (h : i ≤ toks.length) : Mv toks i i := ⟨h, Or.inl (Nat.le_refl _)⟩
+
+theorem Mv.trans {toks : Toks} {i j k : Nat} (h1 : Mv toks i j) (h2 : Mv toks j k) : Mv toks i k := by
+  simp only [Mv] at *; omega
+
+theorem Mv.step {toks : Toks} {i j : Nat} (h : i ≤ j) (hj : j ≤ toks.length) : Mv toks i j := ⟨hj, Or.inl h⟩
+
+/-- Callee step: run a callee whose spec is `Mv`, continue from the new state. -/
+theorem wp_callee {α β} {m : P α} {f : α → P β} {Q : β → St → Prop} {s : St} {R : α → St → Prop}
+    (hm : wp m R s) (hf : ∀ a s', R a s' → wp (f a) Q s') : wp (m >>= f) Q s := by
+  rw [wp_bind]; exact wp_mono hm hf
+
+section level1
+variable (toks : Toks) (hne : toks ≠ []) (hl : LexLike toks)
+include hne hl
+
+/-- The type-hint sub-grammar never panics; movement `Mv`. -/
+theorem hints_ok : ∀ fuel,
+    (∀ s, s.idx ≤ toks.length → wp (parseTypeHint toks false fuel) (fun _ s' => Mv toks s.idx s'.idx) s) ∧
+    (∀ s, s.idx ≤ toks.length → wp (parseTypeArguments toks false fuel) (fun _ s' => Mv toks s.idx s'.idx) s) ∧
+    (∀ acc s, s.idx ≤ toks.length → wp (typeArgsLoop toks false fuel acc) (fun _ s' => Mv toks s.idx s'.idx) s) ∧
+    (∀ s, s.idx ≤ toks.length → wp (parseTupleTypeHint toks false fuel) (fun _ s' => Mv toks s.idx s'.idx) s) ∧
+    (∀ acc s, s.idx ≤ toks.length → wp (tupleHintLoop toks false fuel acc) (fun _ s' => Mv toks s.idx s'.idx) s) := by
+  intro fuel
+  induction fuel with
+  | zero =>
+    refine ⟨?_, ?_, ?_, ?_, ?_⟩ <;> intros <;>
+      first
+        | (rw [parseTypeHint]; simp [wp_outOfFuel])
+        | (rw [parseTypeArguments]; simp [wp_outOfFuel])
+        | (rw [typeArgsLoop]; simp [wp_outOfFuel])
+        | (rw [parseTupleTypeHint]; simp [wp_outOfFuel])
+        | (rw [tupleHintLoop]; simp [wp_outOfFuel])
+  | succ fuel ih =>
+    obtain ⟨h1, h2, h3, h4, h5⟩ := ih
+    refine ⟨?_, ?_, ?_, ?_, ?_⟩
+    · -- parseTypeHint
+      intro s hs
+      rw [parseTypeHint]
+      wpsimp
+      have rest : wp (parseSymbol toks false) (fun a s' => wp (parseTypeArguments toks false fuel)
+          (fun a_1 s'_1 => if (a.name == "Tuple") = true then Mv toks s.idx s'_1.idx else Mv toks s.idx s'_1.idx) s') s := by
+        refine wp_mono (spec_parseSymbol toks hne hl false s hs) ?_
+        intro sym s1 m1
+        refine wp_mono (h2 s1 m1.1.1) ?_
+        intro args s2 m2
+        have m12 := Mv.trans m1.1 m2
+        split <;> exact m12
+      cases ht : toks[s.idx]? with
+      | none => tk ht; exact rest
+      | some t =>
+        tk ht
+        split
+        · exact h4 s hs
+        · exact rest
+    · -- parseTypeArguments
+      intro s hs
+      rw [parseTypeArguments]
+      wpsimp
+      have rest : wp (requireToken toks "<") (fun a s' => wp (typeArgsLoop toks false fuel [])
+          (fun a s'_1 => wp (requireToken toks ">") (fun a_1 s' => Mv toks s.idx s'.idx) s'_1) s') s := by
+        refine wp_mono (spec_requireToken toks hne "<" s hs) ?_
+        intro _ s1 m1
+        have hm1 : Mv toks s.idx s1.idx := Mv.step (by omega) m1.1
+        refine wp_mono (h3 [] s1 m1.1) ?_
+        intro args s2 m2
+        refine wp_mono (spec_requireToken toks hne ">" s2 m2.1) ?_
+        intro _ s3 m3
+        exact Mv.trans (Mv.trans hm1 m2) (Mv.step (by omega) m3.1)
+      cases ht : toks[s.idx]? with
+      | none => tk ht; exact Mv.refl hs
+      | some t =>
+        tk ht
+        split
+        · exact Mv.refl hs
+        · exact rest
+    · -- typeArgsLoop
+      intro acc s hs
+      rw [typeArgsLoop]
+      wpsimp
+      cases ht : toks[s.idx]? with
+      | none => tk ht; wpsimp; exact Mv.refl hs
+      | some t =>
+        tk ht
+        wpsimp
+        split
+        · exact Mv.refl hs
+        · refine wp_mono (h1 s hs) ?_
+          intro arg s1 m1
+          cases ht1 : toks[s1.idx]? with
+          | none => tk ht1; wpsimp; exact m1
+          | some t1 =>
+            have hlt := get_lt ht1
+            tk ht1
+            wpsimp
+            split
+            · tk ht1
+              refine wp_mono (h3 _ ⟨s1.idx + 1, s1.diags⟩ (by first | omega | (simp only []; omega))) ?_
+              intro _ s2 m2
+              exact Mv.trans (Mv.trans m1 (Mv.step (Nat.le_succ _) (by first | omega | (simp only []; omega)))) m2
+            · split <;> exact m1
+    · -- parseTupleTypeHint
+      intro s hs
+      rw [parseTupleTypeHint]
+      wpsimp
+      refine wp_mono (spec_requireToken toks hne "(" s hs) ?_
+      intro _ s1 m1
+      have hm1 : Mv toks s.idx s1.idx := Mv.step (by omega) m1.1
+      refine wp_mono (h5 [] s1 m1.1) ?_
+      intro items s2 m2
+      refine wp_mono (spec_requireToken toks hne ")" s2 m2.1) ?_
+      intro _ s3 m3
+      exact Mv.trans (Mv.trans hm1 m2) (Mv.step (by omega) m3.1)
+    · -- tupleHintLoop
+      intro acc s hs
+      rw [tupleHintLoop]
+      wpsimp
+      have rest : wp (parseTypeHint toks false fuel) (fun a s' => wp
+          (match Option.map (fun t => ({ tok := t, i := s'.idx } : TokI)) toks[s'.idx]? with
+          | none => do
+            diag DiagKind.incomplete
+            pure (acc ++ [a])
+          | some t =>
+            if (t.tok.text == ")") = true then pure (acc ++ [a])
+            else
+              if (t.tok.text == ",") = true then do
+                let _ ← pop toks
+                let __do_lift ← getIdx
+                if __do_lift > s.idx then tupleHintLoop toks false fuel (acc ++ [a]) else pure (acc ++ [a])
+              else do
+                diag DiagKind.incomplete
+                let _ ← pop toks
+                let __do_lift ← getIdx
+                if __do_lift > s.idx then tupleHintLoop toks false fuel (acc ++ [a]) else pure (acc ++ [a]))
+          (fun x s' => Mv toks s.idx s'.idx) s') s := by
+        refine wp_mono (h1 s hs) ?_
+        intro h s1 m1
+        cases ht1 : toks[s1.idx]? with
+        | none => tk ht1; wpsimp; exact m1
+        | some t1 =>
+          have hlt := get_lt ht1
+          have hstep : Mv toks s.idx (s1.idx + 1) := Mv.trans m1 (Mv.step (Nat.le_succ _) (by omega))
+          tk ht1
+          wpsimp
+          split
+          · exact m1
+          · split
+            · tk ht1
+              split
+              · refine wp_mono (h5 _ ⟨s1.idx + 1, s1.diags⟩ (by first | omega | (simp only []; omega))) ?_
+                intro _ s2 m2
+                exact Mv.trans hstep m2
+              · exact hstep
+            · tk ht1
+              split
+              · refine wp_mono (h5 _ ⟨s1.idx + 1, _⟩ (by first | omega | (simp only []; omega))) ?_
+                intro _ s2 m2
+                exact Mv.trans hstep m2
+              · exact hstep
+      cases ht : toks[s.idx]? with
+      | none => tk ht; exact rest
+      | some t =>
+        tk ht
+        split
+        · exact Mv.refl hs
+        · exact rest
+
+theorem hint_ok (fuel : Nat) (s : St) (hs : s.idx ≤ toks.length) :
+    wp (parseTypeHint toks false fuel) (fun _ s' => Mv toks s.idx s'.idx) s :=
+  (hints_ok toks hne hl fuel).1 s hs
+
+theorem typeParamsLoop_ok : ∀ fuel acc s, s.idx ≤ toks.length →
+    wp (typeParamsLoop toks false fuel acc) (fun _ s' => Mv toks s.idx s'.idx) s := by
+  intro fuel
+  induction fuel with
+  | zero => intro acc s hs; rw [typeParamsLoop]; simp [wp_outOfFuel]
+  | succ fuel ih =>
+    intro acc s hs
+    rw [typeParamsLoop]
+    wpsimp
+    have rest : wp (parseSymbol toks false) (fun a s' => wp
+        (match Option.map (fun t => ({ tok := t, i := s'.idx } : TokI)) toks[s'.idx]? with
+        | some t =>
+          if (t.text == ",") = true then do
+            let _ ← pop toks
+            let __do_lift ← getIdx
+            if (!false && decide (__do_lift ≤ s.idx)) = true then pure (acc ++ [a.name])
+            else typeParamsLoop toks false fuel (acc ++ [a.name])
+          else if (t.text == ">") = true then pure (acc ++ [a.name]) else do
+            diag DiagKind.invalid
+            pure (acc ++ [a.name])
+        | none => do
+          diag DiagKind.incomplete
+          pure (acc ++ [a.name]))
+        (fun x s' => Mv toks s.idx s'.idx) s') s := by
+      refine wp_mono (spec_parseSymbol toks hne hl false s hs) ?_
+      intro sym s1 m1
+      cases ht1 : toks[s1.idx]? with
+      | none => tk ht1; wpsimp; exact m1.1
+      | some t1 =>
+        have hlt := get_lt ht1
+        have hstep : Mv toks s.idx (s1.idx + 1) := Mv.trans m1.1 (Mv.step (Nat.le_succ _) (by omega))
+        tk ht1
+        split
+        · wpsimp
+          tk ht1
+          split
+          · exact hstep
+          · refine wp_mono (ih _ ⟨s1.idx + 1, s1.diags⟩ (by first | omega | (simp only []; omega))) ?_
+            intro _ s2 m2
+            exact Mv.trans hstep m2
+        · split <;> wpsimp <;> exact m1.1
+    cases ht : toks[s.idx]? with
+    | none => tk ht; exact rest
+    | some t =>
+      tk ht
       split
-      · split <;> simp [diag, unpop, pure_apply, Good, bind_apply, P.bind] <;> omega
-      · simp [diag, unpop, pure_apply, Good, bind_apply, P.bind]; omega
+      · exact Mv.refl hs
+      · exact rest
+
+theorem parseTypeParams_ok (fuel : Nat) (s : St) (hs : s.idx ≤ toks.length) :
+    wp (parseTypeParams toks false fuel) (fun _ s' => Mv toks s.idx s'.idx) s := by
+  unfold parseTypeParams
+  wpsimp
+  have rest : wp (requireToken toks "<") (fun a s' => wp (typeParamsLoop toks false fuel [])
+      (fun a s'_1 => wp (requireToken toks ">") (fun a_1 s' => Mv toks s.idx s'.idx) s'_1) s') s := by
+    refine wp_mono (spec_requireToken toks hne "<" s hs) ?_
+    intro _ s1 m1
+    have hm1 : Mv toks s.idx s1.idx := Mv.step (by omega) m1.1
+    refine wp_mono (typeParamsLoop_ok toks hne hl fuel [] s1 m1.1) ?_
+    intro args s2 m2
+    refine wp_mono (spec_requireToken toks hne ">" s2 m2.1) ?_
+    intro _ s3 m3
+    exact Mv.trans (Mv.trans hm1 m2) (Mv.step (by omega) m3.1)
+  cases ht : toks[s.idx]? with
+  | none => tk ht; exact Mv.refl hs
+  | some t =>
+    tk ht
+    split
+    · exact Mv.refl hs
+    · exact rest
+
+theorem parseColonAnd_ok (fuel : Nat) (s : St) (hs : s.idx ≤ toks.length) :
+    wp (parseColonAnd toks false fuel) (fun _ s' => Mv toks s.idx s'.idx) s := by
+  unfold parseColonAnd
+  wpsimp
+  refine wp_mono (spec_requireToken toks hne ":" s hs) ?_
+  intro _ s1 m1
+  have hm1 : Mv toks s.idx s1.idx := Mv.step (by omega) m1.1
+  refine wp_mono (hint_ok toks hne hl fuel s1 m1.1) ?_
+  intro _ s2 m2
+  exact Mv.trans hm1 m2
+
+theorem parseColonAndHintOpt_ok (fuel : Nat) (s : St) (hs : s.idx ≤ toks.length) :
+    wp (parseColonAndHintOpt toks false fuel) (fun _ s' => Mv toks s.idx s'.idx) s := by
+  unfold parseColonAndHintOpt
+  wpsimp
+  cases ht : toks[s.idx]? with
+  | none => tk ht; wpsimp; exact Mv.refl hs
+  | some t =>
+    tk ht
+    split
+    · wpsimp
+      refine wp_mono (parseColonAnd_ok toks hne hl fuel s hs) ?_
+      intro _ s1 m1; exact m1
+    · split
+      · wpsimp
+        refine wp_mono (hint_ok toks hne hl fuel _ hs) ?_
+        intro _ s1 m1; exact m1
+      · wpsimp; exact Mv.refl hs
+
+theorem parseParameter_ok (fuel : Nat) (s : St) (hs : s.idx ≤ toks.length) :
+    wp (parseParameter toks false fuel) (fun _ s' => Mv toks s.idx s'.idx) s := by
+  unfold parseParameter
+  wpsimp
+  refine wp_mono (spec_parseSymbol toks hne hl false s hs) ?_
+  intro _ s1 m1
+  refine wp_mono (parseColonAndHintOpt_ok toks hne hl fuel s1 m1.1.1) ?_
+  intro _ s2 m2
+  exact Mv.trans m1.1 m2
+
+theorem paramsLoop_ok : ∀ fuel acc s, s.idx ≤ toks.length →
+    wp (paramsLoop toks false fuel acc) (fun _ s' => Mv toks s.idx s'.idx) s := by
+  intro fuel
+  induction fuel with
+  | zero => intro acc s hs; rw [paramsLoop]; simp [wp_outOfFuel]
+  | succ fuel ih =>
+    intro acc s hs
+    rw [paramsLoop]
+    wpsimp
+    have rest : wp (parseParameter toks false fuel) (fun a s' => wp
+        (match Option.map (fun t => ({ tok := t, i := s'.idx } : TokI)) toks[s'.idx]? with
+        | some t =>
+          if (t.text == ",") = true then do
+            let _ ← pop toks
+            let __do_lift ← getIdx
+            if __do_lift > s.idx then paramsLoop toks false fuel (acc ++ [a])
+            else if false = true then Parse.panic "parser.rs:2183" else pure (acc ++ [a])
+          else if (t.text == ")") = true then pure (acc ++ [a]) else do
+            diag DiagKind.invalid
+            pure (acc ++ [a])
+        | none => do
+          diag DiagKind.incomplete
+          pure (acc ++ [a]))
+        (fun x s' => Mv toks s.idx s'.idx) s') s := by
+      refine wp_mono (parseParameter_ok toks hne hl fuel s hs) ?_
+      intro p s1 m1
+      cases ht1 : toks[s1.idx]? with
+      | none => tk ht1; wpsimp; exact m1
+      | some t1 =>
+        have hlt := get_lt ht1
+        have hstep : Mv toks s.idx (s1.idx + 1) := Mv.trans m1 (Mv.step (Nat.le_succ _) (by omega))
+        tk ht1
+        split
+        · wpsimp
+          tk ht1
+          split
+          · refine wp_mono (ih _ ⟨s1.idx + 1, s1.diags⟩ (by first | omega | (simp only []; omega))) ?_
+            intro _ s2 m2
+            exact Mv.trans hstep m2
+          · exact hstep
+        · split <;> wpsimp <;> exact m1
+    cases ht : toks[s.idx]? with
+    | none => tk ht; exact rest
+    | some t =>
+      tk ht
+      split
+      · exact Mv.refl hs
+      · exact rest
+
+theorem parseParameters_ok (fuel : Nat) (s : St) (hs : s.idx ≤ toks.length) :
+    wp (parseParameters toks false fuel) (fun _ s' => Mv toks s.idx s'.idx) s := by
+  unfold parseParameters
+  wpsimp
+  refine wp_mono (spec_checkRequiredToken toks hne "(" s hs) ?_
+  intro r s1 m1
+  have hm1 : Mv toks s.idx s1.idx := Mv.step (by omega) m1.2.1
+  obtain ⟨ok, t⟩ := r
+  cases ok with
+  | false => simp only; wpsimp; exact hm1
+  | true =>
+    simp only
+    wpsimp
+    refine wp_mono (paramsLoop_ok toks hne hl fuel [] s1 m1.2.1) ?_
+    intro ps s2 m2
+    refine wp_mono (spec_requireToken toks hne ")" s2 m2.1) ?_
+    intro _ s3 m3
+    refine wp_mono (spec_dupDiags toks hne _ _ s3) ?_
+    intro _ s4 m4
+    simp only [m4]
+    exact Mv.trans (Mv.trans hm1 m2) (Mv.step (by omega) m3.1)
+
+theorem destLoop_ok : ∀ fuel acc s, s.idx ≤ toks.length →
+    wp (destLoop toks false fuel acc) (fun _ s' => Mv toks s.idx s'.idx) s := by
+  intro fuel
+  induction fuel with
+  | zero => intro acc s hs; rw [destLoop]; simp [wp_outOfFuel]
+  | succ fuel ih =>
+    intro acc s hs
+    rw [destLoop]
+    wpsimp'
+    split
+    · split
+      · rename_i t ht
+        have hlt := get_lt ht
+        exact Mv.step (Nat.le_succ _) (by first | omega | (simp only []; omega))
+      · exact Mv.refl hs
+    · refine wp_mono (spec_parseSymbol toks hne hl false s hs) ?_
+      intro sym s1 m1
+      split
+      · exact m1.1
+      · split
+        · refine wp_mono (spec_requireToken toks hne "," s1 m1.1.1) ?_
+          intro _ s2 m2
+          have hm2 : Mv toks s.idx s2.idx := Mv.trans m1.1 (Mv.step (by omega) m2.1)
+          split
+          · refine wp_mono (ih _ s2 m2.1) ?_
+            intro _ s3 m3; exact Mv.trans hm2 m3
+          · exact hm2
+        · split
+          · refine wp_mono (ih _ s1 m1.1.1) ?_
+            intro _ s2 m2; exact Mv.trans m1.1 m2
+          · exact m1.1
+
+theorem parseLetDestination_ok (fuel : Nat) (s : St) (hs : s.idx ≤ toks.length) :
+    wp (parseLetDestination toks false fuel) (fun _ s' => Mv toks s.idx s'.idx) s := by
+  unfold parseLetDestination
+  wpsimp'
+  split
+  · split
+    · rename_i t ht
+      have hlt := get_lt ht
+      refine wp_mono (destLoop_ok toks hne hl fuel [] ⟨s.idx + 1, s.diags⟩ (by first | omega | (simp only []; omega))) ?_
+      intro syms s2 m2
+      refine wp_mono (spec_dupDiags toks hne _ _ s2) ?_
+      intro _ s3 m3
+      simp only [m3]
+      exact Mv.trans (Mv.step (Nat.le_succ _) (by first | omega | (simp only []; omega))) m2
+    · refine wp_mono (destLoop_ok toks hne hl fuel [] s hs) ?_
+      intro syms s2 m2
+      refine wp_mono (spec_dupDiags toks hne _ _ s2) ?_
+      intro _ s3 m3
+      simp only [m3]
+      exact m2
+  · refine wp_mono (spec_parseSymbol toks hne hl false s hs) ?_
+    intro _ s1 m1; exact m1.1
+
+theorem parsePattern_ok (fuel : Nat) (s : St) (hs : s.idx ≤ toks.length) :
+    wp (parsePattern toks false fuel) (fun _ s' => Mv toks s.idx s'.idx) s := by
+  unfold parsePattern
+  wpsimp'
+  refine wp_mono (spec_parseSymbol toks hne hl false s hs) ?_
+  intro v s1 m1
+  split
+  · refine wp_mono (spec_requireToken toks hne "(" s1 m1.1.1) ?_
+    intro _ s2 m2
+    have hm2 : Mv toks s.idx s2.idx := Mv.trans m1.1 (Mv.step (by omega) m2.1)
+    refine wp_mono (parseLetDestination_ok toks hne hl fuel s2 m2.1) ?_
+    intro _ s3 m3
+    refine wp_mono (spec_requireToken toks hne ")" s3 m3.1) ?_
+    intro _ s4 m4
+    exact Mv.trans (Mv.trans hm2 m3) (Mv.step (by omega) m4.1)
+  · exact m1.1
+
+end level1
 
 /-! ### Evaluated witnesses (tests, not the theorem) -/
 
